@@ -45,13 +45,24 @@ EntryFor(f, mode, named) ==
             \o (IF named # "-" /\ "struct_name" \in ParamsOf(f) THEN <<P("struct_name", "str", "S" \o f)>> ELSE <<>>)
   IN IF ps = <<>> THEN E(f, "path", <<>>) ELSE E(f, "list", ps)
 \* fs: set of features, modes: feature -> mode (only looked up for features with modes)
-\* named: "-" (no name / vis parameters) or a visibility string; split: "one" | "each"
+\* named: "-" (no name / vis parameters) or a visibility string
+\* split: how the entries are distributed over enum_tools attributes and in which order they are written --
+\*   "one" one attribute | "each" one attribute per feature | "rev" one per feature, reversed (a feature BEFORE the
+\*   one it depends on: range before iter) | "onerev" one attribute, reversed | "halves" two attributes, the second
+\*   half of the entries first
 CfgOf(fs, modes, named, split) ==
   LET seq == SelectSeq(FeatOrder, LAMBDA f : f \in fs)
       ents == [i \in 1..Len(seq) |-> EntryFor(seq[i], IF seq[i] \in DOMAIN modes THEN modes[seq[i]] ELSE "auto",
                                               named)]
-  IN [attrs |-> IF split = "one" \/ ents = <<>> THEN <<ents>> ELSE [i \in 1..Len(ents) |-> <<ents[i]>>],
+      n == Len(ents)
+      rev == [i \in 1..n |-> ents[n + 1 - i]]
+  IN [attrs |-> CASE split = "one" \/ ents = <<>> -> <<ents>>
+                  [] split = "each"   -> [i \in 1..n |-> <<ents[i]>>]
+                  [] split = "rev"    -> [i \in 1..n |-> <<rev[i]>>]
+                  [] split = "onerev" -> <<rev>>
+                  [] split = "halves" -> IF n < 2 THEN <<ents>> ELSE <<SubSeq(ents, n \div 2 + 1, n), SubSeq(ents, 1, n \div 2)>>,
       varattr |-> NoVarAttr]
+Splits == {"one", "each", "rev", "onerev", "halves"}
 NoModes == [x \in {} |-> "auto"]
 Close(fs) == IF "range" \in fs THEN fs \cup {"iter"} ELSE fs
 AllAuto(fs) == CfgOf(Close(fs), NoModes, "-", "one")
@@ -72,7 +83,7 @@ C10Singles(r) ==
      s \in Shapes(r), f \in {g \in UserFeatures : ParamsOf(g) \cap {"name", "struct_name"} # {}}, v \in VisValues}
 C10Pairs(r) ==
   {Case("C10", s, CfgOf(Close({f, g}), NoModes, "-", sp), "pair of features") :
-     s \in {GaplessDecl(r), HolesDecl(r)}, f \in UserFeatures, g \in UserFeatures, sp \in {"one", "each"}}
+     s \in {GaplessDecl(r), HolesDecl(r)}, f \in UserFeatures, g \in UserFeatures, sp \in Splits}
 ModeProduct ==
   {[as_str |-> a, from_str |-> b, FromStr |-> c, iter |-> d] : a \in StrModes, b \in StrModes, c \in StrModes, d \in IterModesImpl}
 C10Modes(r) ==
@@ -85,6 +96,8 @@ C10Random(r) ==
      m \in {NoModes, [as_str |-> "table", from_str |-> "table", FromStr |-> "table", iter |-> "table"],
             [as_str |-> "match", from_str |-> "table", FromStr |-> "match", iter |-> "next_and_back"]},
      nm \in {"-", "pub(crate)"}, sp \in {"one", "each"}}
+  \cup {Case("C10", s, CfgOf(Close(fs), NoModes, "-", sp), "random feature subset, attribute order / grouping") :
+     s \in {GaplessDecl(r), HolesDecl(r)}, fs \in subs, sp \in {"rev", "onerev", "halves"}}
 C10All(r) == {x \in C10Singles(r) \cup C10Pairs(r) \cup C10Modes(r) \cup C10Random(r) : LegalFor(x.cfg, x.src)}
 
 \* C13: single-fault mutations of legal configurations
